@@ -219,6 +219,64 @@ Theorem wrapped_accept_sound : forall k kp bytes inner,
 Proof. exact wrapped_accept_lemma. Qed.
 Print Assumptions wrapped_accept_sound.
 
+(* several keys (rotated keysets, mixed prefix types): soundness and completeness of the wrapper *)
+Theorem wrapped_keyset_accept_sound : forall ks bytes vf,
+  wrapped_verify_ks ks bytes vf = VAccept ->
+  exists i e, nth_error ks i = Some e /\
+    ((k_kind e <> PRaw /\ k_pfx e = firstn 5 bytes /\ vf i (skipn 5 bytes) = VAccept) \/
+     (k_kind e = PRaw /\ vf i bytes = VAccept)).
+Proof. exact wrapped_ks_sound_lemma. Qed.
+Print Assumptions wrapped_keyset_accept_sound.
+
+(* a signature made by ANY key of the keyset - primary or rotated out - can be turned into a proof, and the keyset
+   accepts that proof, provided each key's primitive is complete (dv i / vf i: DeriveProof / VerifyProof of key i on
+   prefix-less bytes) and non-RAW prefixes have 5 bytes *)
+Theorem wrapped_keyset_complete : forall ks sig dv vf,
+  (forall e, In e ks -> k_kind e <> PRaw -> length (k_pfx e) = 5%nat) ->
+  (forall i s p, dv i s = Some p -> vf i p = VAccept) ->
+  (forall i s p, dv i s = Some p -> (5 <= length p)%nat) ->
+  (5 <= length sig)%nat ->
+  (exists j e, nth_error ks j = Some e /\
+     ((k_kind e <> PRaw /\ k_pfx e = firstn 5 sig /\ dv j (skipn 5 sig) <> None) \/
+      (k_kind e = PRaw /\ dv j sig <> None))) ->
+  exists out, wrapped_derive_ks ks sig dv = Some out /\ wrapped_verify_ks ks out vf = VAccept.
+Proof. exact wrapped_ks_complete_lemma. Qed.
+Print Assumptions wrapped_keyset_complete.
+
+Example wrapped_keyset_nonvacuous :
+  let ks := [{| k_kind := PTink; k_pfx := [1; 0; 0; 0; 7]%N |}; {| k_kind := PRaw; k_pfx := [] |};
+             {| k_kind := PTink; k_pfx := [1; 0; 0; 0; 9]%N |}] in
+  let dv := fun (i : nat) (s : list N) => if Nat.eqb i 0 then Some (s ++ [42; 42; 42; 42; 42]%N) else None in
+  let vf := fun (i : nat) (p : list N) => if Nat.eqb i 0 then VAccept else VReject in
+  (* signed by key 0, which is not the last (primary) key *)
+  wrapped_derive_ks ks [1; 0; 0; 0; 7; 5; 5]%N dv = Some [1; 0; 0; 0; 7; 5; 5; 42; 42; 42; 42; 42]%N /\
+  wrapped_verify_ks ks [1; 0; 0; 0; 7; 5; 5; 42; 42; 42; 42; 42]%N vf = VAccept /\
+  wrapped_verify_ks ks [1; 0; 0; 0; 9; 5; 5; 42; 42; 42; 42; 42]%N vf = VReject.
+Proof. vm_compute. repeat split. Qed.
+
+(* ---------- positions: two revealed messages presented at each other's positions ---------- *)
+(* if the same proof is accepted with the revealed messages mi, mj at generators gi, gj and with the two exchanged,
+   then the challenge is 0, or the two GENERATORS ARE EQUAL, or the two messages are equal.  Generator distinctness
+   (h0, h_1..h_n pairwise distinct) is checked on the real generators on every run. *)
+Theorem swapped_messages_rejected : forall F f0 f1 fadd fmul fsub fopp fdiv finv feqb H gen,
+  is_field F f0 f1 fadd fmul fsub fopp fdiv finv -> decides_eq F feqb ->
+  forall strict w pf nonce s1 s2 G1 gi G2 gj G3 M1 mi M2 mj M3,
+  rv_of F f0 gen w pf s1 = combine (G1 ++ gi :: G2 ++ gj :: G3) (M1 ++ mi :: M2 ++ mj :: M3) ->
+  rv_of F f0 gen w pf s2 = combine (G1 ++ gi :: G2 ++ gj :: G3) (M1 ++ mj :: M2 ++ mi :: M3) ->
+  length G1 = length M1 -> length G2 = length M2 ->
+  verify_m F f0 f1 fadd fmul fsub fopp feqb H gen strict Fixed w pf nonce s1 = VAccept ->
+  verify_m F f0 f1 fadd fmul fsub fopp feqb H gen strict Fixed w pf nonce s2 = VAccept ->
+  challenge_of F f0 H gen w pf nonce = f0 \/ gi = gj \/ mi = mj.
+Proof.
+  intros F f0 f1 fadd fmul fsub fopp fdiv finv feqb H gen Hfield Hdec.
+  intros strict w pf nonce s1 s2 G1 gi G2 gj G3 M1 mi M2 mj M3 R1 R2 L1 L2 A1 A2.
+  destruct (binding_messages_lemma F f0 f1 fadd fmul fsub fopp fdiv finv Hfield feqb Hdec H gen strict w pf nonce s1 s2 A1 A2) as [Hc|Hd].
+  - left; exact Hc.
+  - right. unfold rv_of in R1, R2. rewrite R1, R2 in Hd.
+    exact (swap_dot_lemma F f0 f1 fadd fmul fsub fopp fdiv finv Hfield feqb Hdec G1 gi G2 gj G3 M1 mi M2 mj M3 L1 L2 Hd).
+Qed.
+Print Assumptions swapped_messages_rejected.
+
 (* ---------- crafted proof bytes never crash the repaired verifier; the proof buffer is left alone ---------- *)
 Theorem never_panics : forall bs, parse_sigproof Fixed bs <> PPanic.
 Proof.
